@@ -1,5 +1,6 @@
 import GomlVerif.Lemmas.PipeChain
 import GomlVerif.Lemmas.PipeExamples
+import GomlVerif.Gen.PipelineOrder
 /-!
 # C01 — pipeline composition: the middle end `anf ∘ lift ∘ mono` preserves `Sem`
 
@@ -39,6 +40,27 @@ modelling it) — see the doc comment there for what is and is not covered of `g
 -/
 namespace Goml.Pipeline
 open Goml Goml.Sem
+
+/-! ## the order of the passes (regenerated from `pipeline.rs` on every run) -/
+
+/-- every pass is given the file and the environment the previous one returned -/
+def chained : List (String × String × String × Bool × String × String) → Bool
+  | a :: b :: rest => b.2.1 == a.2.2.2.2.2 && b.2.2.1 == a.2.2.2.2.1 && chained (b :: rest)
+  | _ => true
+
+/-- `pipeline::compile` (and the linker of separately compiled packages) runs, after match
+    compilation, exactly `mono::mono`, `lift::lambda_lift`, `anf::anf_file`, `go::compile::go_file`
+    in this order, each on the output of the previous one, the last three sharing the pipeline-wide
+    `Gensym`, and `go_file` ends with `dce::eliminate_dead_vars` — the sequencing `Pipeline.stages`
+    models.  A dropped, added or re-ordered pass changes the generated table (or makes the
+    extractor fail) and this theorem stops the build. -/
+theorem pass_order_is_modelled :
+    Goml.Gen.pipelineOrder.map (·.1) =
+      ["mono::mono", "lift::lambda_lift", "anf::anf_file", "go::compile::go_file"] ∧
+    Goml.Gen.pipelineOrderSeparate = Goml.Gen.pipelineOrder.map (·.1) ∧
+    chained Goml.Gen.pipelineOrder = true ∧
+    Goml.Gen.pipelineOrder.map (·.2.2.2.1) = [false, true, true, true] ∧
+    Goml.Gen.goFileEndsWithDce = true := by decide
 
 /-- the fragment of `pipeline_preserves` (decidable; `Model/Pipeline.lean`) -/
 def InPipeFragment (i : PipeIn) : Prop := inPipeFragment i = true
